@@ -240,10 +240,13 @@ def render_nodes(c, fl, macs, depth=0, in_arg=False):
                     if given_opt and e[4] and all(x == ('w',) for x in e[4]) and (len(c.src) + kk) % 2 == 0:
                         # plain words and an opening bracket, not protected by braces: the argument
                         # ends at the first closing bracket (seeded change C09-G)
+                        # (the bracket does not open the value: a body may put the parameter behind a macro
+                        # that looks for an optional argument)
                         c.src += '['
-                        opt = [('w', '[', len(c.src))]
+                        opt = render_nodes(c, e[4][:1], macs, depth + 1, True)
+                        opt.append(('w', '[', len(c.src)))
                         c.src += '[ '
-                        opt += render_nodes(c, e[4], macs, depth + 1, True)
+                        opt += render_nodes(c, e[4][1:], macs, depth + 1, True)
                         c.src += ']'
                     elif given_opt:
                         c.src += '[{'
@@ -365,6 +368,9 @@ def expand_body(x, body, binding, span, cw_end=()):
                     continue
                 b2[kk] = ('body', args[kk - 1], binding)
             expand_body(x, m.body, b2, span, m.cw_end)
+            if m.default is not None and not given_opt and m.n == 1:
+                # as for a use in the document: still looking for its optional argument, blanks that follow are skipped
+                x.cur().append(('nosp',))
         elif e[0] == 'math':
             x.nmath += 1
             x.cur().append(('g', INLINE_PH[x.nmath % 6], span))
